@@ -5,7 +5,7 @@
 package value
 
 // Every function under contract in this package also serves the properties that depend on the whole package.
-//@ package-props C01 C03 C19 C12
+//@ package-props C01 C03 C04 C08 C19 C12
 
 // What protobuf decoding guarantees for a TypedValue: a set oneof holds a
 // non-nil wrapper, message-valued arms hold a non-nil message, a leaf-list has
